@@ -17,6 +17,9 @@ from vlib.core import *
 SRCS = ["harness/c16.cpp"]
 REPO_CPP = ["babylon/concurrent/*.cpp", "babylon/executor.cpp", "babylon/basic_executor.cpp"]
 MODES = ["inline", "pool", "fault-inline", "fault-pool"]
+# a healthy run takes < 3 000 scheduling points; a livelock (consumer or join spinning forever) is reported
+# as `VERDICT step-limit` after this many instead of VRT's default 3 000 000
+LIMIT = {"VRT_STEP_LIMIT": "60000"}
 
 
 def warm():
@@ -49,15 +52,19 @@ def _classify(ctx, r, mode, env, lockstep, dist, distinct):
     if r["oracle"]:
         dist["oracle"] += 1
         kind = r["oracle"][0].split("ORACLE", 1)[1].split()[0]
-        ctx.failing_input("oracle:%s" % kind, text)
+        if sum(1 for k, _ in ctx.failing if k == "oracle:%s" % kind) < 2:
+            ctx.failing_input("oracle:%s" % kind, text)
     elif r["verdict"] != "ok":
-        ctx.failing_input("verdict:%s" % r["verdict"].split()[0], text + "\n" + r.get("stderr", ""))
+        key = "verdict:%s" % r["verdict"].split()[0]
+        if sum(1 for k, _ in ctx.failing if k == key) < 2:
+            ctx.failing_input(key, text + "\n" + r.get("stderr", ""))
     elif lockstep:
         if r["replay"] and r["replay"].startswith("ok"):
             dist["replay_ok"] += 1
         else:
             dist["replay_diverge"] += 1
-            ctx.broke("correspondence", "E-CONC lock-step c16 mode=%s seed=%d" % (mode, r["seed"]), "%s\n%s" % (r["replay"], text))
+            if dist["replay_diverge"] <= 4:
+                    ctx.broke("correspondence", "E-CONC lock-step c16 mode=%s seed=%d" % (mode, r["seed"]), "%s\n%s" % (r["replay"], text))
 
 
 def _corpus():
@@ -91,9 +98,9 @@ def run(ctx):
     if exe is None:
         ctx.broke("correspondence", "harness/c16.cpp does not build against /repo", log[-800:])
         return
-    n = 300 if ctx.quick else 5000
+    n = 240 if ctx.quick else 5000
     if ctx.broken:
-        n *= 5
+        n *= 3      # an obligation no longer checks: search harder for a concrete failing schedule
     seed0 = ctx.seed * 1000003
     dist = {"modes": {}, "verdicts": {}, "replay_ok": 0, "replay_diverge": 0, "oracle": 0, "cas_fail_lines": 0,
             "refusals_injected": 0, "consumer_exits_and_rollbacks": 0, "launch_accept": 0, "batches": 0, "joins": 0,
@@ -102,20 +109,18 @@ def run(ctx):
     samples = []
     # fixed interesting cases first
     for mode, seed, env in _corpus():
-        for r in ctx.econc(exe, drv, [mode], seed, 1, env=env):
+        for r in ctx.econc(exe, drv, [mode], seed, 1, env=dict(LIMIT, **env)):
             dist["modes"]["corpus"] = dist["modes"].get("corpus", 0) + 1
             _classify(ctx, r, mode, env, True, dist, distinct)
     plan = [(m, n, {}) for m in MODES] + [("inline", n // 2, {"VRT_STRATEGY": "pct"}), ("fault-pool", n // 2, {"VRT_STRATEGY": "pct"}),
                                           ("fault-inline", n // 2, {"VRT_STICK": "0"})]
     for mode, cnt, env in plan:
-        runs = ctx.econc(exe, drv, [mode], seed0, cnt, env=env)
+        runs = ctx.econc(exe, drv, [mode], seed0, cnt, env=dict(LIMIT, **env))
         dist["modes"][mode + ("/" + ",".join("%s=%s" % kv for kv in env.items()) if env else "")] = len(runs)
         for r in runs:
             _classify(ctx, r, mode, env, True, dist, distinct)
             if len(samples) < 1 and mode == "fault-inline" and len(r["lines"]) > 60 and any("launch refuse" in l for l in r["lines"]):
                 samples.append([" ".join(r["header"])] + r["lines"][:70])
-            if len(ctx.failing) + len(ctx.broken) > 12:
-                break
     ctx.cov["distribution"] = dist
     ctx.cov["distinct_nontrivial"] = len(distinct)
     ctx.cov["traces_validated_against_impl"] = dist["replay_ok"]
@@ -134,7 +139,7 @@ def replay(ctx, path):
     mode, seed, env = m.group(1), int(m.group(2)), eval(m.group(3))
     exe, log = build_vrt_exe("c16", SRCS, repo_cpp=REPO_CPP)
     drv = ctx.driver("drv_C16")
-    r = ctx.econc(exe, drv, [mode], seed, 1, env=env)[0]
+    r = ctx.econc(exe, drv, [mode], seed, 1, env=dict(LIMIT, **env))[0]
     print("RUN " + " ".join(r["header"]))
     print("\n".join(r["lines"]))
     print("verdict:", r["verdict"], "replay:", r["replay"], "oracle:", r["oracle"])
